@@ -1,1 +1,735 @@
-fn main() {}
+//! C03 — JWT presentation validation binds the token to the holder document.
+//!
+//! E1 (choice-sequence DFS, deviation-bounded) over `JwtPresentationValidator::validate` with the real
+//! EdDSA verifier. Every token is hand-assembled JSON signed by the harness (`vx::fx::compact_ed`), because
+//! the library cannot emit the inconsistent / out-of-range claim sets.
+//!
+//! World: holder document H = did:example:holder with
+//!   a1  embedded in `authentication`                       key 0
+//!   g2  general method, referenced from `authentication`   key 1
+//!   g3  general method only                                key 2
+//!   f4  general method with a FOREIGN id did:example:other#f4   key 3   (recorded, not judged)
+//!   s5  embedded in `assertionMethod`                      key 4
+//!   x6  general method without a JWK (publicKeyMultibase)  no key
+//! key 9 belongs to nobody.
+//!
+//! Oracle (written from the property statement, not from the implementation): from the choices the set E of
+//! FALSE stated conditions {sig, key, kid, nonce, iss, exp, issuance, vp.holder, vp.id} and the set O of OPEN
+//! aspects (alternatives the statement leaves undecided) are computed.
+//!   safety   : accepted  =>  E = {}                                   (every case)
+//!   returned : accepted  =>  presentation / aud / dates / custom claims equal what was signed (every case)
+//!   liveness : E = {} and O = {}  =>  accepted
+//!   blame    : rejected and O = {}  =>  every reported error is of a class that legitimately blames a member of E
+//! Parts: the deviation-bounded exploration over all 19 choice points, and four complete sub-products
+//! (binding core, dates, claims, misc) with all other points at their default.
+
+use identity_core::common::{Object, Timestamp};
+use identity_core::convert::FromJson;
+use identity_credential::credential::Jwt;
+use identity_credential::validator::{
+  DecodedJwtPresentation, JwtPresentationValidationOptions, JwtPresentationValidator, JwtValidationError,
+};
+use identity_did::DIDUrl;
+use identity_document::document::CoreDocument;
+use identity_document::verifiable::JwsVerificationOptions;
+use identity_verification::jose::error::Error as JoseError;
+use identity_verification::MethodScope;
+use once_cell::sync::Lazy;
+use serde::{Deserialize, Serialize};
+use serde_json::{Map, Value};
+use std::collections::{BTreeMap, BTreeSet, HashSet};
+use std::sync::atomic::{AtomicU64, Ordering};
+use std::sync::Mutex;
+use vx::choice::{self, Chooser};
+use vx::fx::{self, EdKey, RealVerifier};
+use vx::{guard, json, Ctx, Level};
+
+const H: &str = "did:example:holder";
+const OTHER: &str = "did:example:other";
+/// 9999-12-31T23:59:59Z and 0000-01-01T00:00:00Z
+const MAX_TS: i64 = 253_402_300_799;
+const MIN_TS: i64 = -62_167_219_200;
+/// explicit `earliest_expiry_date` / `latest_issuance_date` (different from the clock so that the default is observable)
+const EXP_BOUND: i64 = fx::NOW + 5_000;
+const ISS_BOUND: i64 = fx::NOW - 5_000;
+const ENTRY: &str = "JwtPresentationValidator::validate";
+
+// groups of choice points
+const G_BIND: u8 = 1;
+const G_DATES: u8 = 2;
+const G_CLAIMS: u8 = 4;
+const G_MISC: u8 = 8;
+const G_ALL: u8 = 15;
+
+#[derive(Serialize, Deserialize, Debug, Clone)]
+struct Case {
+  /// bitmask of active choice-point groups (inactive points take their default and are not asked)
+  groups: u8,
+  /// the choice sequence (later points default to 0)
+  seq: Vec<u32>,
+}
+
+struct Method {
+  id: String,
+  frag: &'static str,
+  key: Option<usize>,
+  general: bool,
+  auth: bool,
+  assertion: bool,
+  foreign: bool,
+}
+
+struct World {
+  doc: CoreDocument,
+  keys: Vec<EdKey>,
+  methods: Vec<Method>,
+  validator: JwtPresentationValidator<RealVerifier>,
+}
+
+fn jwk_method(id: &str, controller: &str, key: &EdKey) -> Value {
+  json!({"id": id, "controller": controller, "type": "JsonWebKey2020",
+         "publicKeyJwk": serde_json::to_value(key.public_with_alg("EdDSA")).expect("jwk json")})
+}
+
+static WORLD: Lazy<World> = Lazy::new(|| {
+  let keys: Vec<EdKey> = (0..10u8).map(EdKey::new).collect();
+  let m = |frag: &'static str, did: &str, key, general, auth, assertion| Method {
+    id: format!("{did}#{frag}"),
+    frag,
+    key,
+    general,
+    auth,
+    assertion,
+    foreign: did != H,
+  };
+  let methods = vec![
+    m("a1", H, Some(0), false, true, false),
+    m("g2", H, Some(1), true, true, false),
+    m("g3", H, Some(2), true, false, false),
+    m("f4", OTHER, Some(3), true, false, false),
+    m("s5", H, Some(4), false, false, true),
+    m("x6", H, None, true, false, false),
+  ];
+  let doc_json = json!({
+    "id": H,
+    "verificationMethod": [
+      jwk_method(&methods[1].id, H, &keys[1]),
+      jwk_method(&methods[2].id, H, &keys[2]),
+      jwk_method(&methods[3].id, OTHER, &keys[3]),
+      {"id": methods[5].id, "controller": H, "type": "Ed25519VerificationKey2018",
+       "publicKeyMultibase": "zH3C2AVvLMv6gmMNam3uVAjZpfkcJCwDwnZn6z3wXmqPV"},
+    ],
+    "authentication": [ jwk_method(&methods[0].id, H, &keys[0]), methods[1].id ],
+    "assertionMethod": [ jwk_method(&methods[4].id, H, &keys[4]) ],
+  });
+  let doc = CoreDocument::from_json_value(doc_json).expect("holder document");
+  World { doc, keys, methods, validator: JwtPresentationValidator::with_signature_verifier(RealVerifier) }
+});
+
+// ---------------------------------------------------------------- cheap per-thread accumulation
+struct Acc {
+  shards: Vec<Mutex<(BTreeMap<String, u64>, HashSet<u64>)>>,
+  samples: AtomicU64,
+}
+impl Acc {
+  fn new() -> Acc {
+    let n = vx::rayon::current_num_threads() + 1;
+    Acc { shards: (0..n).map(|_| Mutex::new((BTreeMap::new(), HashSet::new()))).collect(), samples: AtomicU64::new(0) }
+  }
+  fn shard(&self) -> &Mutex<(BTreeMap<String, u64>, HashSet<u64>)> {
+    let i = vx::rayon::current_thread_index().map(|i| i + 1).unwrap_or(0);
+    &self.shards[i % self.shards.len()]
+  }
+  fn outcome(&self, label: String) {
+    *self.shard().lock().unwrap().0.entry(label).or_insert(0) += 1;
+  }
+  fn distinct(&self, h: u64) {
+    self.shard().lock().unwrap().1.insert(h);
+  }
+  fn flush(&self, ctx: &Ctx) {
+    for s in &self.shards {
+      let mut g = s.lock().unwrap();
+      ctx.outcomes_merge(&g.0);
+      ctx.distinct_many(g.1.drain());
+      g.0.clear();
+    }
+  }
+}
+
+// ---------------------------------------------------------------- oracle bookkeeping
+/// canonical order of the stated conditions (used for keys)
+const COND_ORDER: [&str; 9] = ["sig", "key", "kid", "nonce", "iss", "exp", "issuance", "vp.holder", "vp.id"];
+
+#[derive(Default)]
+struct Expect {
+  /// false condition -> (witness class for the key, error classes that legitimately blame it)
+  e: BTreeMap<&'static str, (&'static str, Vec<&'static str>)>,
+  /// open aspects
+  o: BTreeSet<&'static str>,
+}
+impl Expect {
+  fn fail(&mut self, cond: &'static str, class: &'static str, legit: &[&'static str]) {
+    self.e.insert(cond, (class, legit.to_vec()));
+  }
+  fn e_key(&self) -> String {
+    COND_ORDER
+      .iter()
+      .filter_map(|c| self.e.get(c).map(|(class, _)| if class.is_empty() { c.to_string() } else { format!("{c}:{class}") }))
+      .collect::<Vec<_>>()
+      .join("+")
+  }
+}
+
+fn classify(err: &JwtValidationError) -> &'static str {
+  match err {
+    JwtValidationError::PresentationJwsError(e) => match e {
+      identity_document::Error::MethodNotFound => "Jws:MethodNotFound",
+      identity_document::Error::InvalidKeyMaterial(_) => "Jws:InvalidKeyMaterial",
+      identity_document::Error::JwsVerificationError(j) => match j {
+        JoseError::SignatureVerificationError(_) => "Jws:signature",
+        JoseError::InvalidParam(_) | JoseError::MissingParam(_) => "Jws:param",
+        _ => "Jws:decode",
+      },
+      _ => "Jws:other",
+    },
+    JwtValidationError::PresentationStructure(_) => "PresentationStructure",
+    JwtValidationError::SignerUrl { .. } => "SignerUrl",
+    JwtValidationError::DocumentMismatch { .. } => "DocumentMismatch",
+    JwtValidationError::ExpirationDate => "ExpirationDate",
+    JwtValidationError::IssuanceDate => "IssuanceDate",
+    _ => "other",
+  }
+}
+
+fn pt(ch: &mut Chooser, groups: u8, g: u8, label: &'static str, n: usize) -> usize {
+  if groups & g != 0 {
+    ch.choose(label, n)
+  } else {
+    0
+  }
+}
+
+/// One case: build token + options from the choices, run the real validator, judge.
+fn body(ctx: &Ctx, acc: &Acc, groups: u8, ch: &mut Chooser) {
+  let w: &World = &WORLD;
+  let mut x = Expect::default();
+
+  // ------------------------------------------------------------ binding core
+  let sig_c = pt(ch, groups, G_BIND, "signature", 4);
+  let kid_c = pt(ch, groups, G_BIND, "kid", 13);
+  let ovr_c = pt(ch, groups, G_BIND, "method_id", 5);
+  let scope_c = pt(ch, groups, G_BIND, "method_scope", 5);
+  let hnonce_c = pt(ch, groups, G_BIND, "header nonce", 3);
+  let ononce_c = pt(ch, groups, G_BIND, "option nonce", 3);
+
+  let kid: Option<String> = match kid_c {
+    0 => Some(format!("{H}#a1")),
+    1 => Some("a1".into()),
+    2 => Some("#a1".into()),
+    3 => Some(format!("{H}#g2")),
+    4 => Some(format!("{H}#g3")),
+    5 => Some(format!("{H}#s5")),
+    6 => Some(format!("{OTHER}#f4")),
+    7 => Some("f4".into()),
+    8 => Some(format!("{H}#nope")),
+    9 => Some(format!("{OTHER}#a1")),
+    10 => None,
+    11 => Some(format!("{H}#x6")),
+    _ => Some(format!("{H}?versionId=1#a1")),
+  };
+  let override_id: Option<String> = match ovr_c {
+    0 => None,
+    1 => Some(format!("{H}#a1")),
+    2 => Some(format!("{H}#g3")),
+    3 => Some(format!("{OTHER}#f4")),
+    _ => Some(format!("{H}#nope")),
+  };
+  // "If unset, the kid of the JWS is used": the configured method id wins.
+  let selector: Option<String> = override_id.clone().or(kid.clone());
+  let mut sel_for_model = selector.clone();
+  if override_id.is_none() && kid_c == 12 {
+    // a full id carrying a query: whether that "is" the id of a1 is left open; modelled as a1 and marked open
+    x.o.insert("kid-with-query");
+    sel_for_model = Some(format!("{H}#a1"));
+  }
+  let in_scope = |m: &Method| match scope_c {
+    0 => true,
+    1 => m.auth,
+    2 => m.assertion,
+    3 => m.general,
+    _ => false,
+  };
+  let candidate: Option<&Method> = sel_for_model.as_deref().and_then(|s| {
+    w.methods.iter().find(|m| in_scope(m) && (s == m.id || s == m.frag || s.strip_prefix('#') == Some(m.frag)))
+  });
+  match candidate {
+    None => x.fail("kid", if selector.is_none() { "absent" } else { "no-method-in-scope" }, &["Jws:MethodNotFound", "Jws:param"]),
+    Some(m) => {
+      if m.foreign {
+        x.o.insert("foreign-did-method");
+      }
+      if m.key.is_none() {
+        x.fail("key", "method-without-jwk", &["Jws:InvalidKeyMaterial"]);
+      }
+    }
+  }
+  let right_key: usize = candidate.and_then(|m| m.key).unwrap_or(0);
+  let sign_key: usize = match sig_c {
+    0 | 3 => right_key,
+    1 => {
+      if right_key == 2 {
+        0
+      } else {
+        2
+      }
+    }
+    _ => 9,
+  };
+  if sig_c != 0 && candidate.map(|m| m.key.is_some()).unwrap_or(false) {
+    x.fail("sig", ["", "other-method-of-holder", "foreign-key", "payload-replaced"][sig_c], &["Jws:signature"]);
+  }
+  let nonce_of = |c: usize| match c {
+    0 => None,
+    1 => Some("nonce-1"),
+    _ => Some("nonce-2"),
+  };
+  let (hnonce, ononce) = (nonce_of(hnonce_c), nonce_of(ononce_c));
+  if hnonce != ononce {
+    x.fail("nonce", if hnonce.is_none() { "header-absent" } else if ononce.is_none() { "option-absent" } else { "different" }, &["Jws:param"]);
+  }
+
+  // ------------------------------------------------------------ dates
+  let exp_c = pt(ch, groups, G_DATES, "exp", 10);
+  let expopt_c = pt(ch, groups, G_DATES, "earliest_expiry_date", 2);
+  let nbf_c = pt(ch, groups, G_DATES, "nbf", 9);
+  let iat_c = pt(ch, groups, G_DATES, "iat", 5);
+  let issopt_c = pt(ch, groups, G_DATES, "latest_issuance_date", 2);
+  let bx = if expopt_c == 0 { EXP_BOUND } else { fx::NOW };
+  let bl = if issopt_c == 0 { ISS_BOUND } else { fx::NOW };
+  // exp as it goes into the JSON, and as an integer when it is one
+  let (exp_json, exp_int): (Option<Value>, Option<i64>) = match exp_c {
+    0 => (Some(json!(bx + 1000)), Some(bx + 1000)),
+    1 => (None, None),
+    2 => (Some(json!(bx)), Some(bx)),
+    3 => (Some(json!(bx - 1)), Some(bx - 1)),
+    4 => (Some(json!(bx + 1)), Some(bx + 1)),
+    5 => (Some(json!(MAX_TS)), Some(MAX_TS)),
+    6 => (Some(json!(MAX_TS + 1)), Some(MAX_TS + 1)),
+    7 => (Some(json!(MIN_TS - 1)), Some(MIN_TS - 1)),
+    8 => (Some(json!(bx as f64 + 1000.5)), None),
+    _ => (Some(json!(i64::MAX)), Some(i64::MAX)),
+  };
+  match exp_int {
+    Some(e) if e < bx => {
+      let legit: &[&str] = if e < MIN_TS { &["ExpirationDate", "PresentationStructure"] } else { &["ExpirationDate"] };
+      x.fail("exp", if e < MIN_TS { "below-year-0" } else { "before-bound" }, legit);
+    }
+    Some(e) if e > MAX_TS => {
+      // later than the bound, but not a representable date: whether it is accepted is not stated here (C07)
+      x.o.insert("exp-after-year-9999");
+    }
+    None if exp_json.is_some() => {
+      x.o.insert("exp-non-integer");
+    }
+    _ => {}
+  }
+  let nbf: Option<i64> = match nbf_c {
+    0 => Some(bl - 1000),
+    1 => None,
+    2 => Some(bl),
+    3 => Some(bl + 1),
+    4 => Some(bl - 1),
+    5 => Some(MAX_TS + 1),
+    6 => Some(MIN_TS),
+    7 => Some(MIN_TS - 1),
+    _ => Some(i64::MIN),
+  };
+  let iat: Option<i64> = match iat_c {
+    0 => None,
+    1 => Some(bl - 2000),
+    2 => Some(bl),
+    3 => Some(bl + 1),
+    _ => Some(MAX_TS + 1),
+  };
+  // issuance time: nbf represents issuanceDate (VC data model 1.1 §6.3.1); iat is the fallback.
+  let issuance: Option<i64> = nbf.or(iat);
+  if let Some(t) = issuance {
+    if t > bl {
+      let legit: &[&str] = if t > MAX_TS { &["IssuanceDate", "PresentationStructure"] } else { &["IssuanceDate"] };
+      let class = match (nbf.is_some(), iat.is_some()) {
+        (true, true) => "nbf-over-iat",
+        (true, false) => "nbf",
+        _ => "iat",
+      };
+      x.fail("issuance", class, legit);
+    } else if t < MIN_TS {
+      x.o.insert("issuance-below-year-0");
+    }
+  }
+  if let (Some(_), Some(i)) = (nbf, iat) {
+    if i > bl {
+      // nbf decides; an iat that alone would not pass is left open for liveness
+      x.o.insert("iat-after-bound-beside-nbf");
+    }
+  }
+
+  // ------------------------------------------------------------ claims
+  let iss_c = pt(ch, groups, G_CLAIMS, "iss", 8);
+  let vph_c = pt(ch, groups, G_CLAIMS, "vp.holder", 3);
+  let id_c = pt(ch, groups, G_CLAIMS, "jti/vp.id", 5);
+  let iss: Option<&str> = match iss_c {
+    0 => Some(H),
+    1 => Some(OTHER),
+    2 => Some("https://holder.example/profile"),
+    3 => Some("did:example:holder#a1"),
+    4 => Some("holder"),
+    5 => None,
+    6 => Some("did:example:holderx"),
+    _ => Some("did:example:holde"),
+  };
+  match iss_c {
+    0 => {}
+    1 | 6 | 7 => x.fail("iss", "other-did", &["DocumentMismatch"]),
+    2 => x.fail("iss", "url-not-did", &["SignerUrl", "DocumentMismatch"]),
+    3 => x.fail("iss", "did-url-with-fragment", &["SignerUrl", "DocumentMismatch"]),
+    4 => x.fail("iss", "not-a-url", &["PresentationStructure"]),
+    _ => x.fail("iss", "absent", &["PresentationStructure"]),
+  }
+  let vp_holder: Option<&str> = match vph_c {
+    0 => None,
+    1 => Some(H),
+    _ => Some("did:example:mallory"),
+  };
+  if let Some(h) = vp_holder {
+    if Some(h) != iss {
+      x.fail("vp.holder", if iss.is_none() { "without-iss" } else { "differs-from-iss" }, &["PresentationStructure"]);
+    }
+  }
+  const ID1: &str = "https://example.com/presentations/1";
+  const ID2: &str = "https://example.com/presentations/2";
+  let (jti, vp_id): (Option<&str>, Option<&str>) = match id_c {
+    0 => (None, None),
+    1 => (Some(ID1), None),
+    2 => (Some(ID1), Some(ID1)),
+    3 => (Some(ID1), Some(ID2)),
+    _ => (None, Some(ID1)),
+  };
+  if let Some(v) = vp_id {
+    if jti != Some(v) {
+      x.fail("vp.id", if jti.is_none() { "without-jti" } else { "differs-from-jti" }, &["PresentationStructure"]);
+    }
+  }
+
+  // ------------------------------------------------------------ misc
+  let aud_c = pt(ch, groups, G_MISC, "aud", 4);
+  let custom_c = pt(ch, groups, G_MISC, "custom claims", 2);
+  let creds_c = pt(ch, groups, G_MISC, "verifiableCredential", 4);
+  let shape_c = pt(ch, groups, G_MISC, "vp shape", 3);
+  let props_c = pt(ch, groups, G_MISC, "vp properties", 2);
+  let aud_json: Option<Value> = match aud_c {
+    0 => None,
+    1 => Some(json!("did:example:verifier")),
+    2 => Some(json!("https://verifier.example/aud")),
+    _ => {
+      x.o.insert("aud-array");
+      Some(json!(["did:example:verifier"]))
+    }
+  };
+  let custom: Map<String, Value> = if custom_c == 1 {
+    json!({"foo": "bar", "n": 7, "nested": {"a": [1, 2]}}).as_object().unwrap().clone()
+  } else {
+    Map::new()
+  };
+  let creds: Option<Vec<&str>> = match creds_c {
+    0 => Some(vec!["cred.one.sig"]),
+    1 => None,
+    2 => Some(vec!["cred.one.sig", "cred.two.sig"]),
+    _ => {
+      x.o.insert("vc-empty-array");
+      Some(vec![])
+    }
+  };
+  const BASE_CTX: &str = "https://www.w3.org/2018/credentials/v1";
+  let (ctx_json, type_json) = match shape_c {
+    0 => (json!(BASE_CTX), json!("VerifiablePresentation")),
+    1 => (json!([BASE_CTX, "https://example.com/ctx/v1"]), json!(["VerifiablePresentation", "ExtraPresentation"])),
+    _ => {
+      x.o.insert("vp-without-base-type");
+      (json!(BASE_CTX), json!("SomethingElse"))
+    }
+  };
+
+  // ------------------------------------------------------------ assemble
+  let mut vp = Map::new();
+  vp.insert("@context".into(), ctx_json.clone());
+  vp.insert("type".into(), type_json.clone());
+  if let Some(c) = &creds {
+    vp.insert("verifiableCredential".into(), json!(c));
+  }
+  if let Some(h) = vp_holder {
+    vp.insert("holder".into(), json!(h));
+  }
+  if let Some(i) = vp_id {
+    vp.insert("id".into(), json!(i));
+  }
+  if props_c == 1 {
+    vp.insert("extra".into(), json!({"p": 1}));
+  }
+  let mut claims = Map::new();
+  if let Some(i) = iss {
+    claims.insert("iss".into(), json!(i));
+  }
+  if let Some(e) = &exp_json {
+    claims.insert("exp".into(), e.clone());
+  }
+  if let Some(n) = nbf {
+    claims.insert("nbf".into(), json!(n));
+  }
+  if let Some(i) = iat {
+    claims.insert("iat".into(), json!(i));
+  }
+  if let Some(j) = jti {
+    claims.insert("jti".into(), json!(j));
+  }
+  if let Some(a) = &aud_json {
+    claims.insert("aud".into(), a.clone());
+  }
+  claims.insert("vp".into(), Value::Object(vp));
+  for (k, v) in &custom {
+    claims.insert(k.clone(), v.clone());
+  }
+  let mut header = Map::new();
+  header.insert("alg".into(), json!("EdDSA"));
+  header.insert("typ".into(), json!("JWT"));
+  if let Some(k) = &kid {
+    header.insert("kid".into(), json!(k));
+  }
+  if let Some(n) = hnonce {
+    header.insert("nonce".into(), json!(n));
+  }
+  let header_s = Value::Object(header).to_string();
+  let payload = Value::Object(claims.clone()).to_string();
+  let mut token = fx::compact_ed(&header_s, payload.as_bytes(), &w.keys[sign_key]);
+  if sig_c == 3 {
+    // keep header and signature, replace the payload segment by a different claims set
+    let mut evil = claims.clone();
+    evil.insert("aud".into(), json!("did:example:attacker"));
+    let seg: Vec<&str> = token.split('.').collect();
+    token = format!("{}.{}.{}", seg[0], fx::b64(Value::Object(evil).to_string().as_bytes()), seg[2]);
+  }
+
+  let mut vopts = JwsVerificationOptions::new();
+  if let Some(n) = ononce {
+    vopts = vopts.nonce(n);
+  }
+  if let Some(id) = &override_id {
+    vopts = vopts.method_id(DIDUrl::parse(id).expect("override id"));
+  }
+  match scope_c {
+    0 => {}
+    1 => vopts = vopts.method_scope(MethodScope::authentication()),
+    2 => vopts = vopts.method_scope(MethodScope::assertion_method()),
+    3 => vopts = vopts.method_scope(MethodScope::VerificationMethod),
+    _ => vopts = vopts.method_scope(MethodScope::key_agreement()),
+  }
+  let mut opts = JwtPresentationValidationOptions::new().presentation_verifier_options(vopts);
+  if expopt_c == 0 {
+    opts = opts.earliest_expiry_date(fx::ts(EXP_BOUND));
+  }
+  if issopt_c == 0 {
+    opts = opts.latest_issuance_date(fx::ts(ISS_BOUND));
+  }
+
+  // ------------------------------------------------------------ run the real validator
+  let case = Case { groups, seq: ch.seq() };
+  let jwt = Jwt::new(token);
+  let res = guard(|| w.validator.validate::<CoreDocument, Jwt, Object>(&jwt, &w.doc, &opts));
+  let open = !x.o.is_empty();
+  let tag = if open { " [open]" } else { "" };
+  let res = match res {
+    Err(p) => {
+      ctx.violation(&format!("{ENTRY}|{}", p.key()), &format!("{} ; choices {:?}", p.msg, ch.labelled()), &case);
+      acc.outcome("panic".into());
+      return;
+    }
+    Ok(r) => r,
+  };
+  match res {
+    Ok(dec) => {
+      acc.outcome(format!("accepted{tag}"));
+      acc.distinct(Ctx::hash_of(&(groups, &case.seq)));
+      if acc.samples.fetch_add(1, Ordering::Relaxed) < 3 {
+        ctx.sample("accepted", &case);
+      }
+      if !x.e.is_empty() {
+        ctx.violation(
+          &format!("{ENTRY}|accepted|{}", x.e_key()),
+          &format!("accepted although {:?} false; header {header_s} claims {payload}", x.e.keys().collect::<Vec<_>>()),
+          &case,
+        );
+        return;
+      }
+      judge_returned(ctx, &case, &dec, iss, jti, &ctx_json, &type_json, &creds, props_c == 1, &aud_json, aud_c, exp_int, exp_c, issuance, &custom, &payload);
+    }
+    Err(err) => {
+      let classes: Vec<&'static str> = err.presentation_validation_errors.iter().map(classify).collect();
+      let label = if classes.is_empty() { "none".to_string() } else { classes.join(",") };
+      acc.outcome(format!("rejected:{label}{tag}"));
+      if !classes.iter().all(|c| c.starts_with("Jws:")) {
+        acc.distinct(Ctx::hash_of(&(groups, &case.seq)));
+      }
+      if classes.is_empty() {
+        ctx.violation(&format!("{ENTRY}|rejected|empty-error-list"), &payload, &case);
+        return;
+      }
+      if x.e.is_empty() && !open {
+        ctx.violation(
+          &format!("{ENTRY}|rejected|all-conditions-hold|{label}"),
+          &format!("every stated condition holds, got {err}; header {header_s} claims {payload}"),
+          &case,
+        );
+        return;
+      }
+      if !open {
+        for c in &classes {
+          if !x.e.values().any(|(_, legit)| legit.contains(c)) {
+            ctx.violation(
+              &format!("{ENTRY}|rejected|spurious-blame|{c}|false:{}", x.e_key()),
+              &format!("error {c} blames a condition that holds (false: {:?}); {err}; header {header_s} claims {payload}", x.e.keys().collect::<Vec<_>>()),
+              &case,
+            );
+          }
+        }
+      }
+    }
+  }
+}
+
+#[allow(clippy::too_many_arguments)]
+fn judge_returned(
+  ctx: &Ctx,
+  case: &Case,
+  dec: &DecodedJwtPresentation<Jwt, Object>,
+  iss: Option<&str>,
+  jti: Option<&str>,
+  ctx_json: &Value,
+  type_json: &Value,
+  creds: &Option<Vec<&str>>,
+  props: bool,
+  aud_json: &Option<Value>,
+  aud_c: usize,
+  exp_int: Option<i64>,
+  exp_c: usize,
+  issuance: Option<i64>,
+  custom: &Map<String, Value>,
+  payload: &str,
+) {
+  // presentation: the data-model form of what was signed
+  let mut want = Map::new();
+  want.insert("@context".into(), ctx_json.clone());
+  want.insert("type".into(), type_json.clone());
+  if let Some(c) = creds {
+    if !c.is_empty() {
+      want.insert("verifiableCredential".into(), json!(c));
+    }
+  }
+  if let Some(i) = iss {
+    want.insert("holder".into(), json!(i));
+  }
+  if let Some(j) = jti {
+    want.insert("id".into(), json!(j));
+  }
+  if props {
+    want.insert("extra".into(), json!({"p": 1}));
+  }
+  let got = serde_json::to_value(&dec.presentation).unwrap_or(Value::Null);
+  if got != Value::Object(want.clone()) {
+    let field = if got.get("holder") != want.get("holder") {
+      "holder"
+    } else if got.get("id") != want.get("id") {
+      "id"
+    } else if got.get("verifiableCredential") != want.get("verifiableCredential") {
+      "verifiableCredential"
+    } else {
+      "other-member"
+    };
+    ctx.violation(
+      &format!("{ENTRY}|accepted|returned-presentation-differs|{field}"),
+      &format!("signed claims {payload}; returned presentation {got}; expected {}", Value::Object(want)),
+      case,
+    );
+  }
+  // aud (the array form is open: only recorded)
+  if aud_c != 3 {
+    let want_aud = aud_json.as_ref().and_then(|v| v.as_str());
+    let got_aud = dec.aud.as_ref().map(|u| u.as_str());
+    if want_aud != got_aud {
+      ctx.violation(&format!("{ENTRY}|accepted|returned-aud-differs"), &format!("signed {want_aud:?} returned {got_aud:?}"), case);
+    }
+  }
+  // expiration date (a non-integer exp is open: only recorded)
+  if exp_c != 8 {
+    let got_exp = dec.expiration_date.map(|t| t.to_unix());
+    if got_exp != exp_int {
+      ctx.violation(&format!("{ENTRY}|accepted|returned-expiration-differs"), &format!("signed exp {exp_int:?} returned {got_exp:?}"), case);
+    }
+  }
+  let got_iss = dec.issuance_date.map(|t| t.to_unix());
+  if got_iss != issuance {
+    ctx.violation(
+      &format!("{ENTRY}|accepted|returned-issuance-differs"),
+      &format!("signed issuance (nbf, else iat) {issuance:?} returned {got_iss:?}; claims {payload}"),
+      case,
+    );
+  }
+  // custom claims: None and the empty object both mean "none"
+  let got_custom: Map<String, Value> = dec.custom_claims.clone().map(|o| o.into_iter().collect()).unwrap_or_default();
+  if &got_custom != custom {
+    ctx.violation(
+      &format!("{ENTRY}|accepted|returned-custom-claims-differ"),
+      &format!("signed {} returned {}", Value::Object(custom.clone()), Value::Object(got_custom)),
+      case,
+    );
+  }
+  let _ = Timestamp::now_utc; // the clock is the harness's (fx)
+}
+
+fn eval(ctx: &Ctx, case: &Case) {
+  ctx.eval1();
+  let acc = Acc::new();
+  let mut ch = Chooser::replay(&case.seq);
+  body(ctx, &acc, case.groups, &mut ch);
+  acc.flush(ctx);
+}
+
+fn generate(ctx: &Ctx) {
+  ctx.rule("E1 choice DFS over 19 choice points (signature, kid, method_id, method_scope, header nonce, option nonce | exp, earliest_expiry_date, nbf, iat, latest_issuance_date | iss, vp.holder, jti/vp.id | aud, custom claims, verifiableCredential, vp shape, vp properties): all sequences with at most `deviation_bound` non-default choices, plus the complete product of each of the four groups with the other groups at default. distinct_nontrivial = distinct (groups, choice sequence) whose execution got past the JWS stage (accepted, or rejected by an error that is not a PresentationJwsError)");
+  ctx.assume("Ed25519 signing by iota-crypto and base64url by identity_jose::jwu are trusted for assembling tokens; the real EdDSAJwsVerifier is used for verification");
+  ctx.assume("issuance time of a presentation JWT is nbf when present, else iat (VC data model 1.1 §6.3.1 and the documented behaviour of IssuanceDateClaims)");
+  ctx.assume("open (recorded, not judged for liveness/blame): foreign-DID method listed in the holder document, kid with a query part, exp above year 9999 or non-integer, issuance below year 0, iat after the bound beside a passing nbf, aud as array, explicit empty verifiableCredential array, vp without the base type");
+  ctx.bound("clock_now", fx::NOW);
+  ctx.bound("earliest_expiry_date_explicit", EXP_BOUND);
+  ctx.bound("latest_issuance_date_explicit", ISS_BOUND);
+
+  let acc = Acc::new();
+  let bound = ctx.by_tier(3u32, 5u32);
+  ctx.bound("deviation_bound", bound);
+  choice::explore_into(ctx, "all points, deviation-bounded", Some(bound), |ch| body(ctx, &acc, G_ALL, ch));
+  acc.flush(ctx);
+  for (g, name) in [(G_BIND, "binding core (signature x kid x method_id x scope x nonce^2), complete"), (G_DATES, "dates (exp x bound x nbf x iat x bound), complete"), (G_CLAIMS, "claims (iss x vp.holder x jti/vp.id), complete"), (G_MISC, "misc (aud x custom x credentials x shape x properties), complete")] {
+    choice::explore_into(ctx, name, None, |ch| body(ctx, &acc, g, ch));
+    acc.flush(ctx);
+  }
+  // pairwise products of groups (thorough): binding core x claims, dates x claims
+  if ctx.thorough() {
+    for (g, name) in [(G_DATES | G_CLAIMS, "dates x claims, complete"), (G_CLAIMS | G_MISC, "claims x misc, complete")] {
+      choice::explore_into(ctx, name, None, |ch| body(ctx, &acc, g, ch));
+      acc.flush(ctx);
+    }
+  }
+  ctx.sample("baseline", &Case { groups: G_ALL, seq: vec![] });
+}
+
+fn main() {
+  vx::run_main::<Case, _, _>("C03", Level::ModelChecking, generate, eval)
+}
